@@ -207,9 +207,9 @@ CHECKS = {
     "C06": dict(
         category="fault_enumeration",
         technique="exhaustive enumeration of the matrix call site x failure mode x persistence x position x pipeline x executor configuration, each cell on the real code in a child process with attempt counting and hang/crash oracles",
-        text=("Every meaningful cell (894 quick / 5,350 thorough) of: call site in {ReaderFunc, WriterFunc, Map, Filter, Flatmap, Fold, Repartition function, Scan callback, Reduce combiner in the task-local table / in the combine buffer / in the "
-              "consumer-side merge (location verified from the call stack)} x mode in {plain error, temporary error (both ways of marking), panic, partition out of range} x {always, once} x position in {first row, first row after the vector "
-              "boundary, last row, end-of-stream} (thorough: every row) x {operator last, followed by Reduce} x {local; verifsystem; verifsystem with MachineCombiners; two-machine and one-proc variants}. Each cell runs on a fresh session in a child "
+        text=("Every meaningful cell (about 1.9k quick; every row position in thorough) of: call site in {ReaderFunc, WriterFunc, Map, Filter, Flatmap, Fold, Repartition function, Scan callback, Reduce combiner in the task-local table / in the combine buffer / in the "
+              "consumer-side merge (location verified from the call stack)} x mode in {plain error, temporary error (errors.Temporary, errors.Retriable, net-style Temporary(), one shared sentinel value), panic, partition out of range} x {always, once, twice} x position in {first row, first row after the vector "
+              "boundary, last row, end-of-stream} (thorough: every row) x {operator last, followed by Reduce, reader/writer followed by Reshuffle (a combiner-free shuffle producer)} x {local; verifsystem; verifsystem with MachineCombiners; two-machine and one-proc variants}. Each cell runs on a fresh session in a child "
               "process; the injected function counts its own invocations. Oracle: a persistent failure => Run returns an error (with the user's message for reader/writer errors and every panic), the driver survives, bounded attempts (<= 160 deliveries), "
               "no hang (60 s + 20 s inactivity, re-run 3x), never a nil error with wrong rows; a one-shot temporary failure => success with the exact rows; afterwards a healthy Func runs in the same session."),
         note=TRUSTED + " Two signatures of the documented MachineCombiners limitation (no error recovery) are recorded in known_findings.jsonl. The vsched two-task shared-combiner scenario of the design was not needed: the wedge was reached by the matrix.",
